@@ -27,9 +27,11 @@ import (
 	"os"
 	"strings"
 	"sync"
+	"syscall"
 	"testing"
 	"time"
 
+	"github.com/go-logr/logr"
 	"go.minekube.com/gate/pkg/edition/java/proto/packet"
 	"go.minekube.com/gate/pkg/edition/java/proto/packet/plugin"
 	"go.minekube.com/gate/pkg/edition/java/proto/packet/title"
@@ -47,6 +49,7 @@ type conn44 struct {
 	in       []byte // scripted inbound bytes, then EOF
 	out      []byte
 	writeErr error
+	dlErr    error // SetWriteDeadline fails with it (what a closed socket does before the flush even starts)
 	closes   int
 }
 
@@ -77,13 +80,58 @@ func (c *conn44) Read(p []byte) (int, error) {
 	c.in = c.in[n:]
 	return n, nil
 }
-func (c *conn44) failWrites()                      { c.mu.Lock(); c.writeErr = errInjected; c.mu.Unlock() }
+func (c *conn44) failWrites()                      { c.failWritesWith(errInjected) }
+func (c *conn44) failWritesWith(err error)         { c.mu.Lock(); c.writeErr = err; c.mu.Unlock() }
+func (c *conn44) failDeadlinesWith(err error)      { c.mu.Lock(); c.dlErr = err; c.mu.Unlock() }
 func (c *conn44) Close() error                     { c.mu.Lock(); c.closes++; c.mu.Unlock(); return nil }
 func (c *conn44) LocalAddr() net.Addr              { return &net.TCPAddr{} }
 func (c *conn44) RemoteAddr() net.Addr             { return &net.TCPAddr{} }
 func (c *conn44) SetDeadline(time.Time) error      { return nil }
 func (c *conn44) SetReadDeadline(time.Time) error  { return nil }
-func (c *conn44) SetWriteDeadline(time.Time) error { return nil }
+func (c *conn44) SetWriteDeadline(time.Time) error { c.mu.Lock(); defer c.mu.Unlock(); return c.dlErr }
+
+// The classes of write errors the connection code tells apart (closeOnWriteErr looks at the error to
+// decide what to LOG: ErrClosedConn and *net.OpError wrapping net.ErrClosed / ECONNRESET are silent). All
+// of them describe the socket, none of them means that the minecraftConn has been torn down already, so
+// the statement asks the same of every class: teardown exactly once, Closed(), later writes refused.
+type errClass44 struct {
+	name string
+	err  error
+}
+
+type timeoutErr44 struct{}
+
+func (timeoutErr44) Error() string   { return "i/o timeout" }
+func (timeoutErr44) Timeout() bool   { return true }
+func (timeoutErr44) Temporary() bool { return true }
+
+var errClasses44 = []errClass44{
+	{"plain", errInjected},
+	{"io.ErrClosedPipe", io.ErrClosedPipe},
+	{"OpError(ECONNRESET)", &net.OpError{Op: "write", Net: "tcp", Err: os.NewSyscallError("write", syscall.ECONNRESET)}},
+	{"OpError(net.ErrClosed)", &net.OpError{Op: "write", Net: "tcp", Err: net.ErrClosed}},
+	{"OpError(EPIPE)", &net.OpError{Op: "write", Net: "tcp", Err: os.NewSyscallError("write", syscall.EPIPE)}},
+	{"OpError(timeout)", &net.OpError{Op: "write", Net: "tcp", Err: timeoutErr44{}}},
+	{"bare-ECONNRESET", syscall.ECONNRESET},
+	{"ErrClosedConn-from-below", fmt.Errorf("wrapped transport: %w", ErrClosedConn)},
+}
+
+// abortSink44 is a logr sink that discards everything; see new44x.
+type abortSink44 struct {
+	aborting func() bool
+	cancel   context.CancelFunc
+}
+
+func (s *abortSink44) Init(logr.RuntimeInfo)          {}
+func (s *abortSink44) Enabled(int) bool               { return false }
+func (s *abortSink44) Info(int, string, ...any)       {}
+func (s *abortSink44) WithValues(...any) logr.LogSink { return s }
+func (s *abortSink44) WithName(string) logr.LogSink   { return s }
+func (s *abortSink44) Error(error, string, ...any) {
+	if s.aborting() {
+		s.cancel()
+	}
+}
 
 // frame builds an uncompressed frame: varint(len) varint(id) payload.
 func frame44(id int, payload []byte) []byte {
@@ -154,6 +202,8 @@ type f44 struct {
 	mc   *minecraftConn
 	h    *handler44
 	h2   *handler44 // a second session handler (configuration state) for the handler-swap scenarios
+	// tag prefixes this fixture's violation keys (scenarios that run several fixtures one after the other)
+	tag string
 	// noHandler: the connection never had a session handler, so there is no session to tear down; the
 	// rest of the teardown (underlying connection closed once, writes refused) is still due
 	noHandler bool
@@ -186,6 +236,11 @@ func new44x(e *dualrun.Env, in []byte, withHandler bool) *f44 {
 	// accepted connection's / the proxy's context); cancelling it makes Closed(c) true WITHOUT any close
 	// path having run
 	parent, cancel := context.WithCancel(context.Background())
+	// safety net for the explorer, not part of any oracle: when an execution ends in a deadlock the
+	// scheduler releases the blocked threads with a panic; the read loop's recover() swallows it and - if the
+	// connection is still open - goes back to waiting, spinning forever. Its "recovered panic" log line is
+	// the hook: during such a tear-down the parent context is cancelled so that the loop's condition fails.
+	parent = logr.NewContext(parent, logr.New(&abortSink44{aborting: func() bool { return e.X != nil && e.X.Aborting() }, cancel: cancel}))
 	conn, _ := NewMinecraftConn(parent, base, proto.ServerBound, time.Second, time.Second, -1, nil)
 	f := &f44{e: e, base: base, mc: conn.(*minecraftConn), h: &handler44{name: "h1"}, h2: &handler44{name: "h2"}, cancelParent: cancel}
 	f.mc.SetProtocol(version.Minecraft_1_21_4.Protocol)
@@ -201,6 +256,13 @@ func new44x(e *dualrun.Env, in []byte, withHandler bool) *f44 {
 		}
 	})
 	return f
+}
+
+func (f *f44) fail(key, format string, a ...any) {
+	if f.tag != "" {
+		key = f.tag + "/" + key
+	}
+	f.e.Fail(key, format, a...)
 }
 
 // teardowns is the number of session teardowns over ALL handlers the connection ever had: the statement
@@ -242,7 +304,7 @@ func (f *f44) failingWrite() {
 	o := f.do("WritePacket(failing)", true, true, func() error { return f.mc.WritePacket(&packet.KeepAlive{RandomID: 1}) })
 	o.entryGuarded = true
 	if o.err == nil {
-		f.e.Fail("write-error-swallowed", "WritePacket on a connection whose writes fail returned nil")
+		f.fail("write-error-swallowed", "WritePacket on a connection whose writes fail returned nil")
 	}
 }
 
@@ -250,13 +312,26 @@ func (f *f44) failingWrite() {
 // the connection (-> teardown). Small payloads are buffered and fail in the flush, payloads larger than
 // the 4096-byte write buffer fail inside the encoder's write itself - two different close-on-error sites
 // per entry point.
-func (f *f44) failingVia(kind string) {
-	f.base.failWrites()
+func (f *f44) failingVia(kind string) { f.failingViaErr(kind, errInjected) }
+
+// failingViaErr is failingVia with the class of error the socket reports. Further entry points:
+// "WritePacket"; "Flush(deadline)" = the flush cannot even set its write deadline (a closed socket);
+// "release/<call>" = leaving configuration releases one held play packet into the failing connection
+// (the fixture must have gone through holdOne).
+func (f *f44) failingViaErr(kind string, werr error) {
+	if kind == "Flush(deadline)" {
+		f.base.failDeadlinesWith(werr)
+	} else {
+		f.base.failWritesWith(werr)
+	}
 	small := []byte{0x26, 0, 0, 0, 0, 0, 0, 0, 6}
 	large := make([]byte, 6000)
 	large[0] = 0x26
+	isWrite := true
 	var fn func() error
 	switch kind {
+	case "WritePacket":
+		fn = func() error { return f.mc.WritePacket(&packet.KeepAlive{RandomID: 1}) }
 	case "Write":
 		fn = func() error { return f.mc.Write(small) }
 	case "Write(large)":
@@ -265,7 +340,7 @@ func (f *f44) failingVia(kind string) {
 		fn = func() error { return f.mc.BufferPayload(large) }
 	case "BufferPacket(large)":
 		fn = func() error { return f.mc.BufferPacket(&plugin.Message{Channel: "verif:c44", Data: large}) }
-	case "BufferPayload+Flush":
+	case "BufferPayload+Flush", "Flush(deadline)":
 		fn = func() error {
 			if err := f.mc.BufferPayload(small); err != nil {
 				return err
@@ -279,14 +354,77 @@ func (f *f44) failingVia(kind string) {
 			}
 			return f.mc.Flush()
 		}
+	case "release/SetState":
+		isWrite, fn = false, func() error { f.mc.SetState(state.Play); return nil }
+	case "release/SetOutboundState":
+		isWrite, fn = false, func() error { f.mc.SetOutboundState(state.Play); return nil }
+	case "release/SetActiveSessionHandler":
+		isWrite, fn = false, func() error { f.mc.SetActiveSessionHandler(state.Play, f.h); return nil }
+	case "release/SwitchSessionHandler":
+		isWrite, fn = false, func() error { f.switchTo(state.Play); return nil }
 	default:
 		panic(kind)
 	}
-	o := f.do(kind+"(failing)", true, true, fn)
-	o.entryGuarded = true
-	if o.err == nil {
-		f.e.Fail("write-error-swallowed", "%s on a connection whose writes fail returned nil", kind)
+	o := f.do(kind+"(failing)", true, isWrite, fn)
+	o.entryGuarded = isWrite
+	if isWrite && o.err == nil {
+		f.fail("write-error-swallowed", "%s on a connection whose writes fail with %v returned nil", kind, werr)
 	}
+	// closed by a write error: whoever closed it, the connection is closed once the failed call is back
+	if !Closed(f.mc) {
+		f.fail("write-error/not-closed", "%s met the socket error %v (returned %v) and the connection is still open afterwards", kind, werr, o.err)
+	}
+}
+
+var failingEntries44 = []string{"WritePacket", "Write", "Write(large)", "BufferPayload(large)", "BufferPacket(large)",
+	"BufferPayload+Flush", "BufferPacket+Flush", "Flush(deadline)",
+	"release/SetState", "release/SetOutboundState", "release/SetActiveSessionHandler", "release/SwitchSessionHandler"}
+
+// errClassScenarios44: for every class of socket error, (1) every write entry point and every
+// queue-release call, each on a fresh connection, followed by the four write calls (nothing is reading:
+// only the write error can close the connection); (2) the failing write racing with an explicit Close;
+// (3) the failing write while the read loop is parked behind SetAutoReading(false) - the close caused by
+// the write error has to free it.
+func errClassScenarios44() []dualrun.Scenario {
+	var out []dualrun.Scenario
+	for _, ec := range errClasses44 {
+		out = append(out,
+			dualrun.Scenario{Name: "write-error/" + ec.name + "/every-entry-point", Quick: -1, Thorough: -1, Body: func(e *dualrun.Env) {
+				var fs []*f44
+				for _, entry := range failingEntries44 {
+					f := new44(e, nil)
+					f.tag = entry
+					if strings.HasPrefix(entry, "release/") {
+						f.holdOne()
+					}
+					fs = append(fs, f)
+				}
+				e.Go("a", func() {
+					for i, entry := range failingEntries44 {
+						fs[i].failingViaErr(entry, ec.err)
+						fs[i].writes()
+					}
+				})
+				for _, f := range fs {
+					f.finish(true)
+				}
+			}},
+			dualrun.Scenario{Name: "write-error/" + ec.name + "/WritePacket-vs-Close", Quick: 3, Thorough: -1, Body: func(e *dualrun.Env) {
+				f := new44(e, nil)
+				e.Go("a", func() { f.failingViaErr("WritePacket", ec.err); f.writes() })
+				e.Go("b", func() { f.close() })
+				f.finish(true)
+			}},
+			dualrun.Scenario{Name: "write-error/" + ec.name + "/parked-readloop", Quick: 3, Thorough: -1, Body: func(e *dualrun.Env) {
+				f := new44(e, nil)
+				f.mc.SetAutoReading(false)
+				e.Go("a", func() { f.readLoop() })
+				e.Go("b", func() { f.failingViaErr("BufferPayload+Flush", ec.err); f.writes() })
+				f.finish(true)
+			}},
+		)
+	}
+	return out
 }
 
 // the four ways to write
@@ -311,7 +449,7 @@ func (f *f44) finish(expectClosed bool) {
 		h := strings.Join(hist, " ")
 		closed := Closed(f.mc)
 		if expectClosed && !closed {
-			f.e.Fail("not-closed", "every thread finished but the connection is not closed; %s", h)
+			f.fail("not-closed", "every thread finished but the connection is not closed; %s", h)
 		}
 		// has a close path definitely run? (Close, CloseUnknown and the read loop's deferred close always
 		// reach closeKnown; entry-guarded calls only if the parent context was not yet cancelled when they began)
@@ -334,19 +472,19 @@ func (f *f44) finish(expectClosed bool) {
 		}
 		if f.noHandler {
 			if n != 0 {
-				f.e.Fail("teardown-count", "no session handler was ever installed, yet Disconnected ran %d times; %s", n, h)
+				f.fail("teardown-count", "no session handler was ever installed, yet Disconnected ran %d times; %s", n, h)
 			}
 		} else if ranClose != "" && n != 1 {
-			f.e.Fail("teardown-count", "a close path ran (%s), SessionHandler.Disconnected ran %d times, want exactly 1; %s", ranClose, n, h)
+			f.fail("teardown-count", "a close path ran (%s), SessionHandler.Disconnected ran %d times, want exactly 1; %s", ranClose, n, h)
 		}
 		if ranClose != "" && f.base.closes != 1 {
-			f.e.Fail("underlying-close-count", "a close path ran (%s), the underlying net.Conn was closed %d times, want exactly 1; %s", ranClose, f.base.closes, h)
+			f.fail("underlying-close-count", "a close path ran (%s), the underlying net.Conn was closed %d times, want exactly 1; %s", ranClose, f.base.closes, h)
 		}
 		if ranClose == "" && closed && n > 1 {
-			f.e.Fail("teardown-count", "SessionHandler.Disconnected ran %d times; %s", n, h)
+			f.fail("teardown-count", "SessionHandler.Disconnected ran %d times; %s", n, h)
 		}
 		if !closed && n != 0 {
-			f.e.Fail("teardown-count", "connection open but SessionHandler.Disconnected ran %d times; %s", n, h)
+			f.fail("teardown-count", "connection open but SessionHandler.Disconnected ran %d times; %s", n, h)
 		}
 		// later writes report the connection as closed
 		for _, w := range f.ops {
@@ -355,7 +493,7 @@ func (f *f44) finish(expectClosed bool) {
 			}
 			for _, c := range f.ops {
 				if c.closing && c.ret > 0 && c.ret < w.call && !errors.Is(w.err, ErrClosedConn) {
-					f.e.Fail("write-after-close/"+w.kind, "%s started after %s had returned, yet it returned %v instead of ErrClosedConn; %s", w.kind, c.kind, w.err, h)
+					f.fail("write-after-close/"+w.kind, "%s started after %s had returned, yet it returned %v instead of ErrClosedConn; %s", w.kind, c.kind, w.err, h)
 				}
 			}
 		}
@@ -594,7 +732,7 @@ func scenarios44() []dualrun.Scenario {
 // switchTo switches to the handler registered for the state; the switch must take place.
 func (f *f44) switchTo(reg *state.Registry) {
 	if !f.mc.SwitchSessionHandler(reg) {
-		f.e.Fail("switch-refused", "SwitchSessionHandler(%v) = false although a handler is registered for that state", reg)
+		f.fail("switch-refused", "SwitchSessionHandler(%v) = false although a handler is registered for that state", reg)
 	}
 }
 
@@ -628,9 +766,57 @@ func sortStrings(s []string) {
 
 type customPanic struct{ n int }
 
-var behaviours44 = []string{"ok", "panic-error", "panic-string", "panic-runtime", "panic-custom", "panic-nil", "close"}
+var behaviours44 = []string{"ok", "panic-error", "panic-string", "panic-runtime", "panic-custom", "panic-nil", "close",
+	// the handler answers with a packet and the socket fails the write with an error of that class
+	"write-fails:plain", "write-fails:OpError(ECONNRESET)", "write-fails:OpError(net.ErrClosed)"}
 
-func behave44(mc *minecraftConn, kind string) {
+// failable44 wraps the connection's socket: once armed, every Write fails with the given error.
+type failable44 struct {
+	net.Conn
+	mu  sync.Mutex
+	err error
+}
+
+func (c *failable44) arm(err error) { c.mu.Lock(); c.err = err; c.mu.Unlock() }
+func (c *failable44) Write(p []byte) (int, error) {
+	c.mu.Lock()
+	err := c.err
+	c.mu.Unlock()
+	if err != nil {
+		return 0, err
+	}
+	return c.Conn.Write(p)
+}
+
+func closesConn44(kind string) bool {
+	return kind == "close" || strings.HasPrefix(kind, "write-fails:")
+}
+
+// behave44 runs inside HandlePacket. report collects what a write failure left behind, checked the moment
+// the failing write returns (the statement: closed by a write error => teardown ran exactly once, the
+// connection is closed, later writes say so).
+func behave44(mc *minecraftConn, sock *failable44, h *handler44, kind string, report func(key, desc string)) {
+	if cls, ok := strings.CutPrefix(kind, "write-fails:"); ok {
+		for _, ec := range errClasses44 {
+			if ec.name == cls {
+				sock.arm(ec.err)
+			}
+		}
+		err := mc.WritePacket(&packet.KeepAlive{RandomID: 77})
+		if err == nil {
+			report("write-error-swallowed", "WritePacket returned nil although the socket failed the write")
+		}
+		if !Closed(mc) {
+			report("write-error/not-closed", fmt.Sprintf("WritePacket failed with %v but the connection is not closed afterwards", err))
+		}
+		if n := h.count(); n != 1 {
+			report("write-error/teardown-count", fmt.Sprintf("WritePacket failed with %v; SessionHandler.Disconnected has run %d times, want exactly 1", err, n))
+		}
+		if err2 := mc.WritePacket(&packet.KeepAlive{RandomID: 78}); !errors.Is(err2, ErrClosedConn) {
+			report("write-error/write-after-close", fmt.Sprintf("the write after the failed one (%v) returned %v, want ErrClosedConn", err, err2))
+		}
+		return
+	}
 	switch kind {
 	case "panic-error":
 		panic(errors.New("handler failed"))
@@ -661,17 +847,24 @@ func runPanicCase(r *vrt.R, pc panicCase) {
 	}
 	h := &handler44{}
 	var mc *minecraftConn
+	var sock *failable44
+	var repMu sync.Mutex
+	reports := map[string]string{}
 	h.behave = func(n int, _ *proto.PacketContext) {
 		if n >= 1 && n <= len(pc.Seq) {
-			behave44(mc, pc.Seq[n-1])
+			behave44(mc, sock, h, pc.Seq[n-1], func(key, d string) {
+				repMu.Lock()
+				reports[key] = fmt.Sprintf("handler of packet %d (%s): %s", n, pc.Seq[n-1], d)
+				repMu.Unlock()
+			})
 		}
 	}
 	desc := fmt.Sprintf("packets with handler behaviours %v over a %s connection", pc.Seq, pc.Mode)
 	done := make(chan any, 1)
 	var closeClient func()
 	if pc.Mode == "scripted" {
-		base := &conn44{in: in}
-		conn, loop := NewMinecraftConn(context.Background(), base, proto.ServerBound, 5*time.Second, 5*time.Second, -1, nil)
+		sock = &failable44{Conn: &conn44{in: in}}
+		conn, loop := NewMinecraftConn(context.Background(), sock, proto.ServerBound, 5*time.Second, 5*time.Second, -1, nil)
 		mc = conn.(*minecraftConn)
 		mc.SetProtocol(version.Minecraft_1_21_4.Protocol)
 		mc.SetActiveSessionHandler(state.Play, h)
@@ -681,7 +874,8 @@ func runPanicCase(r *vrt.R, pc panicCase) {
 		}()
 	} else {
 		srv, cli := net.Pipe()
-		conn, loop := NewMinecraftConn(context.Background(), srv, proto.ServerBound, 5*time.Second, 5*time.Second, -1, nil)
+		sock = &failable44{Conn: srv}
+		conn, loop := NewMinecraftConn(context.Background(), sock, proto.ServerBound, 5*time.Second, 5*time.Second, -1, nil)
 		mc = conn.(*minecraftConn)
 		mc.SetProtocol(version.Minecraft_1_21_4.Protocol)
 		mc.SetActiveSessionHandler(state.Play, h)
@@ -725,6 +919,11 @@ func runPanicCase(r *vrt.R, pc panicCase) {
 		r.Violation(key+"panic-escaped", fmt.Sprintf("a panic in HandlePacket escaped startReadLoop (%v): %s", escaped, desc), pc)
 		return
 	}
+	repMu.Lock()
+	for k, d := range reports {
+		r.Violation(key+k, d+": "+desc, pc)
+	}
+	repMu.Unlock()
 	if !Closed(mc) {
 		r.Violation(key+"not-closed", "startReadLoop returned but the connection is not closed: "+desc, pc)
 	}
@@ -737,7 +936,7 @@ func runPanicCase(r *vrt.R, pc panicCase) {
 	// evidence only: did the loop carry on after a panic (every packet up to the first "close" handled)?
 	want := len(pc.Seq)
 	for i, b := range pc.Seq {
-		if b == "close" {
+		if closesConn44(b) {
 			want = i + 1
 			break
 		}
@@ -753,7 +952,7 @@ func runPanicCase(r *vrt.R, pc panicCase) {
 	r.Distinct(fmt.Sprintf("%s|%v", pc.Mode, pc.Seq))
 	r.Class("panics:" + pc.Mode)
 	for _, b := range pc.Seq {
-		if strings.HasPrefix(b, "panic") {
+		if strings.HasPrefix(b, "panic") || strings.HasPrefix(b, "write-fails") {
 			r.Class("behaviour:" + b)
 		}
 	}
@@ -812,6 +1011,6 @@ func TestVerif(t *testing.T) {
 			panicsPass(r)
 			return
 		}
-		dualrun.Run(r, scenarios44())
+		dualrun.Run(r, append(scenarios44(), errClassScenarios44()...))
 	})
 }
